@@ -40,4 +40,60 @@ extern uint64_t pre_ncmp;
 /* first test of insert_hint: the hint is end() or its element is not before the key */
 #define HINT_A (g_pos == g_set_n || !RANK_LT(REG_RANK(g_pos), g_key_rank))
 #define LG_COST_OK(extra) (g_ncmp <= pre_ncmp + 2 * g_lg + (extra))
+
+/* ------------------------------------------------------------------------------------------------ SmallSet
+ * SS_T: lowered SmallSet struct { VecType _vec (FixedCapacityVector<T,N,Unchecked>, FLAVOUR == FL_STATIC); SetType _set }.
+ * The inline elements are ALL registered (N <= 4: slots 0..3 hold indices 0..3) and pairwise non-equivalent; the large state
+ * is the abstract set g_as[0] (SetSpec, ghost/l0_aset.h).  Invariant: never both non-empty. */
+#ifdef SS_T
+#define SS_VEC(s) (&(s)->_vec)
+#define SS_VN(s) V_SIZE(SS_VEC(s))
+#define SS_SMALL(s) (g_as[0].n == 0)
+#define AS_OK(k, setp) (g_as[k].obj == OBJ(setp) && g_as[k].off == OFF(setp) && V_FRESH(g_as[k].buf, (g_as[k].n + ASET_ROOM) * ESZ) && (!g_as[k].has || g_as[k].pos < g_as[k].n) && \
+                        g_cell_obj != OBJ(g_as[k].buf) && !(g_tok_on && g_tok_obj == OBJ(g_as[k].buf)) && g_blk_obj != OBJ(g_as[k].buf))
+#define SS_REQ(s) (V_FRESH(s, sizeof(*(s))) && g_N == SS_N && V_WORDS_OK(SS_VEC(s)) && V_ALIGN_OK(SS_VEC(s)) && V_CELL_OK(SS_VEC(s)) && V_TOK_OK(SS_VEC(s)) && \
+                   g_set_obj == OBJ(V_DATA(SS_VEC(s))) && g_set_off == OFF(V_DATA(SS_VEC(s))) && g_set_n == SS_VN(s) && \
+                   REG_SLOT(0, 0) && REG_SLOT(1, 1) && REG_SLOT(2, 2) && REG_SLOT(3, 3) && REG_UNUSED_FROM(4) && REG_DISTINCT && \
+                   AS_OK(0, &(s)->_set) && (SS_VN(s) == 0 || g_as[0].n == 0))
+/* the key's class is present (abstraction over both states) */
+#define SS_HAS_INLINE ((g_set_n > 0 && g_reg_rank[0] == g_key_rank) || (g_set_n > 1 && g_reg_rank[1] == g_key_rank) || (g_set_n > 2 && g_reg_rank[2] == g_key_rank) || (g_set_n > 3 && g_reg_rank[3] == g_key_rank))
+#define SS_INLINE_IDX (g_set_n > 0 && g_reg_rank[0] == g_key_rank ? 0 : (g_set_n > 1 && g_reg_rank[1] == g_key_rank ? 1 : (g_set_n > 2 && g_reg_rank[2] == g_key_rank ? 2 : 3)))
+/* post-state observers */
+#define SS_SIZE(s) (SS_SMALL(s) ? SS_VN(s) : g_as[0].n)
+#define SS_POST(s) (V_WORDS_OK(SS_VEC(s)) && V_CELL_OK(SS_VEC(s)) && V_TOK_OK(SS_VEC(s)) && (SS_VN(s) == 0 || g_as[0].n == 0) && (!g_as[0].has || g_as[0].pos < g_as[0].n))
+#define SS_END(s) (SS_SMALL(s) ? (const E *)L0_PADD(V_DATA(SS_VEC(s)), +, SS_VN(s)) : (const E *)L0_PADD(g_as[0].buf, +, g_as[0].n))
+/* result predicates (RESULT_KIND selects the observer under proof: 1 find, 2 contains/count, 3 size, 4 empty, 5 begin, 6 end) */
+#define SS_FIND_SPEC(s) (SS_SMALL(s) ? (SS_HAS_INLINE ? (const E *)L0_PADD(V_DATA(SS_VEC(s)), +, SS_INLINE_IDX) : SS_END(s)) : (g_as[0].has ? (const E *)L0_PADD(g_as[0].buf, +, g_as[0].pos) : SS_END(s)))
+#if RESULT_KIND == 1
+#define SS_LOOKUP_RESULT_OK(r) ((const E *)(r) == SS_FIND_SPEC(self))
+#else
+#define SS_LOOKUP_RESULT_OK(r) (((r) != 0) == (pre_ss_has != 0) && (r) <= 1)
+#endif
+#if RESULT_KIND == 4
+#define SS_SIZE_RESULT_OK(r) (((r) != 0) == (pre_ss_size == 0))
+#else
+#define SS_SIZE_RESULT_OK(r) ((uint64_t)(r) == pre_ss_size)
+#endif
+#if RESULT_KIND == 5
+#define SS_ITER_RESULT_OK(r) ((const E *)(r) == (SS_SMALL(self) ? (const E *)V_DATA(SS_VEC(self)) : (const E *)g_as[0].buf) && (((const E *)(r) == SS_END(self)) == (pre_ss_size == 0)))
+#else
+#define SS_ITER_RESULT_OK(r) ((const E *)(r) == SS_END(self))
+#endif
+#define SS_HAS_NOW(s) (SS_SMALL(s) ? SS_HAS_INLINE_NOW(s) : g_as[0].has)
+/* presence among the post-state inline elements: the old ones keep their ranks, an appended element is the key */
+#define SS_HAS_INLINE_NOW(s) (SS_VN(s) > g_set_n ? 1 : ((SS_VN(s) > 0 && SS_RANK_NOW(s, 0) == g_key_rank) || (SS_VN(s) > 1 && SS_RANK_NOW(s, 1) == g_key_rank) || (SS_VN(s) > 2 && SS_RANK_NOW(s, 2) == g_key_rank) || (SS_VN(s) > 3 && SS_RANK_NOW(s, 3) == g_key_rank)))
+/* rank of post-state inline element i: erase(key) removes the element at SS_INLINE_IDX and shifts the tail down */
+#define SS_RANK_NOW(s, i) (SS_VN(s) < g_set_n && (i) >= pre_erased_idx ? g_reg_rank[((i) + 1) & 3] : g_reg_rank[(i) & 3])
+#define SS_IT_DESIGNATES_KEY(s, it) (SS_SMALL(s) ? (OBJ(it) == OBJ(V_DATA(SS_VEC(s))) && OFF(it) >= OFF(V_DATA(SS_VEC(s))) && (OFF(it) - OFF(V_DATA(SS_VEC(s)))) / ESZ < SS_VN(s) && \
+                                      (((OFF(it) - OFF(V_DATA(SS_VEC(s)))) / ESZ >= g_set_n) || g_reg_rank[((OFF(it) - OFF(V_DATA(SS_VEC(s)))) / ESZ) & 3] == g_key_rank)) \
+                                    : (g_as[0].has && (const E *)(it) == (const E *)L0_PADD(g_as[0].buf, +, g_as[0].pos)))
+#define SS_VALID_POS(s, it) (SS_SMALL(s) ? (SS_VN(s) > 0 && g_pos < SS_VN(s) && (const E *)(it) == (const E *)L0_PADD(V_DATA(SS_VEC(s)), +, g_pos)) \
+                                         : (g_pos < g_as[0].n && (const E *)(it) == (const E *)L0_PADD(g_as[0].buf, +, g_pos)))
+#define SS_IT_VALID_OR_END(s, it) (SS_SMALL(s) ? (OBJ(it) == OBJ(V_DATA(SS_VEC(s))) && OFF(it) >= OFF(V_DATA(SS_VEC(s))) && (OFF(it) - OFF(V_DATA(SS_VEC(s)))) / ESZ <= SS_VN(s)) \
+                                               : (OBJ(it) == OBJ(g_as[0].buf) && OFF(it) >= OFF(g_as[0].buf) && (OFF(it) - OFF(g_as[0].buf)) / ESZ <= g_as[0].n))
+extern uint64_t pre_erased_idx;
+/* logical variables: pre-state abstraction */
+extern _Bool pre_ss_small, pre_ss_has; extern uint64_t pre_ss_size;
+#define SS_BIND(s) (pre_ss_small == (SS_SMALL(s) ? 1 : 0) && pre_ss_has == ((SS_SMALL(s) ? SS_HAS_INLINE : g_as[0].has) ? 1 : 0) && pre_ss_size == SS_SIZE(s))
+#endif
 #endif
